@@ -30,6 +30,9 @@ def shards(tier, seed):
     out = SC.shards(tier, seed, nplain=6, nasan=2, q_cases=350, real=False, q_asan=200)
     out += [{'name': f'reader-{lang}{k}', 'kind': 'reader', 'lang': lang, 'cases': 100 if q else 8000, 'budget_s': 45 if q else 600}
             for lang in ('en', 'ja') for k in range(4)]
+    # one process that switches the active language between reads (the label must be the ACTIVE grammar's)
+    out += [{'name': f'reader-mixed{k}', 'kind': 'reader', 'lang': 'mixed', 'cases': 60 if q else 4000, 'budget_s': 45 if q else 600}
+            for k in range(2)]
     return out
 
 
@@ -100,14 +103,30 @@ def judge(tree, ix, R, fmt, has_head_field, wit, path='root'):
                         f'{fmt} reader: {path}: underivable node {tree.cat!s} is labelled {tree.op_string!r}, expected unk', wit)
 
 
+def flip_heads(tree, rng):
+    """AUTO files written by other tools may carry head fields that differ from the grammar's: flip some flags"""
+    if tree.is_leaf:
+        return
+    if not tree.is_unary and rng.random() < 0.5:
+        tree.head_is_left = not tree.head_is_left
+    for c in tree.children:
+        flip_heads(c, rng)
+
+
 def run_reader(spec, R):
     lang = spec['lang']
+    mixed = lang == 'mixed'
+    if mixed:
+        lang = 'en'
     env.install(lang)
     env.stub_native_parsing()
     from depccg.printer import to_string
     from depccg.tools.reader import read_auto, read_xml, read_jigg_xml, read_ptb
     from depccg.tree import Tree
+    from depccg.lang import set_global_language_to
     ix = treegen.index(lang)
+    other_ix = treegen.index('ja') if mixed else None
+    set_global_language_to(lang)
     rng = shard_rng(ID, spec['seed'], spec['name'])
     tmp = tempfile.mkdtemp(prefix='verif-c12-')
     readers = {'auto': (read_auto, 'x.auto', True), 'xml': (read_xml, 'x.xml', False),
@@ -123,16 +142,33 @@ def run_reader(spec, R):
                 R.case(stable_hash((fmt, wit['batch'])), nontriv)
                 path = os.path.join(tmp, fn)
                 try:
-                    text = to_string(copy.deepcopy(batch), format=fmt)
+                    work = copy.deepcopy(batch)
+                    if fmt == 'auto' and rng.random() < 0.5:
+                        for trees in work:
+                            for st in trees:
+                                flip_heads(st.tree, rng)
+                        R.count('reader:auto-files-with-foreign-head-fields')
+                    text = to_string(work, format=fmt)
                     with open(path, 'w', encoding='utf-8') as f:
                         f.write(text)
-                    read = list(reader(path))
                 except Exception as e:
-                    R.hist('foreign_violation_keys', f'read_{fmt}:raises')
+                    R.hist('foreign_violation_keys', f'{fmt}:raises')
                     continue
-                R.count(f'reader:{fmt}-trees', len(read))
-                for rr in read:
-                    judge(rr.tree, ix, R, fmt, has_head, dict(wit, format=fmt, text=text[:1200]))
+                # in the mixed shard every file is read under both languages, in random order, in this one process
+                langs = [(lang, ix)] if not mixed else rng.sample([('en', ix), ('ja', other_ix)], 2)
+                for active, aix in langs:
+                    set_global_language_to(active)
+                    try:
+                        read = list(reader(path))
+                    except Exception as e:
+                        R.hist('foreign_violation_keys', f'read_{fmt}:raises')
+                        continue
+                    R.count(f'reader:{fmt}-trees', len(read))
+                    if mixed:
+                        R.count(f'reader:mixed-reads-under-{active}')
+                    for rr in read:
+                        judge(rr.tree, aix, R, f'{fmt}[{active}]', has_head, dict(wit, format=fmt, active_language=active, text=text[:1200]))
+                set_global_language_to(lang)
             for st in flat:
                 R.case(stable_hash(('nltk', treegen.tree_dump(st.tree))), len(st.tree.leaves) >= 2)
                 try:
